@@ -723,3 +723,165 @@ func TestVerifC09Stream(t *testing.T) {
 		w.Flush()
 	}
 }
+
+// ------------------------------------------------------------------ keep-alive flood into a stalled peer (TestVerifC09Flood)
+//
+// The peer reads nothing any more and floods k KeepAlives (k well past the ack queue's bound), optionally with reports or
+// the reply to an in-flight request behind the flood; then the connection ends by one of: eof (the peer hangs up), close
+// (local Close, the peer hangs up a moment later), shutdown (a Shutdown that cannot complete, its context ends, then Close),
+// deadline (client built WithTimeout: its pending Write and its reads time out by themselves). Time-budget verdicts.
+
+type c09FloodReq struct {
+	ID        string `json:"id"`
+	K         int    `json:"k"`
+	Cause     string `json:"cause"`  // eof | close | shutdown | deadline
+	Behind    string `json:"behind"` // none | reports | reply
+	TimeoutMs int    `json:"timeout_ms"`
+	BudgetMs  int    `json:"budget_ms"`
+}
+
+func c09FloodRun(rq c09FloodReq) vsObs {
+	out := vsObs{"id": rq.ID}
+	budget := time.Duration(rq.BudgetMs) * time.Millisecond
+	var pmu sync.Mutex
+	var panics []string
+	guard := func(what string) {
+		if r := recover(); r != nil {
+			pmu.Lock()
+			panics = append(panics, fmt.Sprint(what, ": ", r))
+			pmu.Unlock()
+		}
+	}
+	opts := []ClientOpt{WithLogger(nil), WithVersion(Version1_0_1)}
+	if rq.Cause == "deadline" {
+		opts = append(opts, WithTimeout(time.Duration(rq.TimeoutMs)*time.Millisecond))
+	}
+	c := NewClient(opts...)
+	cli, peer := net.Pipe()
+	connRes := make(chan string, 1)
+	go func() {
+		defer guard("Connect")
+		connRes <- vsClassify(c.Connect(cli))
+	}()
+	write := func(typ int, id uint32, pl []byte) error {
+		_ = peer.SetWriteDeadline(time.Now().Add(400 * time.Millisecond))
+		_, err := peer.Write(vsBuildFrame(1, typ, id, uint32(10+len(pl)), pl))
+		return err
+	}
+	start := func(ctx context.Context, typ int) chan string {
+		ch := make(chan string, 1)
+		go func() {
+			defer guard(fmt.Sprint("caller typ ", typ))
+			_, _, err := c.SendMessage(ctx, MessageType(typ), vsPayload(6, uint64(typ)))
+			if err == nil {
+				ch <- "ok"
+			} else {
+				ch <- vsClassify(err)
+			}
+		}()
+		return ch
+	}
+	wait := func(ch chan string, d time.Duration) string {
+		select {
+		case r := <-ch:
+			return r
+		case <-time.After(d):
+			return "stuck"
+		}
+	}
+	if err := write(int(MsgReaderEventNotification), 0, (&vsPl{K: "conn"}).bytes()); err != nil {
+		out["error"] = "first frame: " + err.Error()
+		return out
+	}
+	callers := vsObs{}
+	bg := context.Background()
+	var first chan string
+	var reqID uint32
+	if rq.Behind == "reply" {
+		first = start(bg, 20)
+		buf := make([]byte, 16)
+		_ = peer.SetReadDeadline(time.Now().Add(budget))
+		if _, err := io.ReadFull(peer, buf); err != nil {
+			out["error"] = "request not received: " + err.Error()
+			return out
+		}
+		reqID = vsParseHeader(buf).ID
+	}
+	// ---- from here on the peer reads nothing
+	blockedAt := -1
+	for i := 0; i < rq.K; i++ {
+		if err := write(int(MsgKeepAlive), uint32(6000+i), nil); err != nil {
+			blockedAt = i
+			break
+		}
+	}
+	behindOK := true
+	if blockedAt < 0 {
+		switch rq.Behind {
+		case "reports":
+			for i := 0; i < 3; i++ {
+				if write(int(MsgROAccessReport), uint32(7000+i), vsPayload(30, uint64(i))) != nil {
+					behindOK = false
+				}
+			}
+		case "reply":
+			if write(30, reqID, vsPayload(12, 432)) != nil {
+				behindOK = false
+			}
+			callers["served"] = wait(first, budget)
+		}
+	}
+	out["flood_blocked_at"] = blockedAt
+	out["behind_taken"] = behindOK
+	queued := start(bg, 21) // waits behind the write loop's blocked Write
+	time.Sleep(5 * time.Millisecond)
+	t0 := time.Now()
+	switch rq.Cause {
+	case "eof":
+		_ = peer.Close()
+	case "close":
+		func() { defer guard("Close"); out["close"] = vsClassify(c.Close()) }()
+		callers["queued"] = wait(queued, budget) // released by Close itself, before anybody hangs up
+		_ = peer.Close()
+	case "shutdown":
+		ctx, cancel := context.WithTimeout(bg, 100*time.Millisecond)
+		sd := make(chan string, 1)
+		go func() { defer guard("Shutdown"); sd <- vsClassify(c.Shutdown(ctx)) }()
+		callers["shutdown"] = wait(sd, budget)
+		cancel()
+		func() { defer guard("Close"); out["close"] = vsClassify(c.Close()) }()
+		_ = peer.Close()
+	case "deadline":
+	}
+	out["connect"] = wait(connRes, budget)
+	out["connect_ms"] = time.Since(t0).Milliseconds()
+	if _, ok := callers["queued"]; !ok {
+		callers["queued"] = wait(queued, budget)
+	}
+	out["callers"] = callers
+	func() { defer guard("Close again"); out["close_again"] = vsClassify(c.Close()) }()
+	_ = cli.Close()
+	_ = peer.Close()
+	time.Sleep(2 * time.Millisecond)
+	pmu.Lock()
+	if len(panics) > 0 {
+		out["panics"] = panics
+	}
+	pmu.Unlock()
+	return out
+}
+
+func TestVerifC09Flood(t *testing.T) {
+	lines, w, done := verifIO(t)
+	defer done()
+	enc := json.NewEncoder(w)
+	for _, line := range lines {
+		var rq c09FloodReq
+		if err := json.Unmarshal([]byte(line), &rq); err != nil {
+			_ = enc.Encode(vsObs{"error": "bad request: " + err.Error()})
+			continue
+		}
+		_ = enc.Encode(c09FloodRun(rq))
+		w.Flush()
+	}
+}
